@@ -1,0 +1,85 @@
+//! Seams for the model-checking harness in /verif. Compiled only with `--cfg grevm_verif`.
+//!
+//! Nothing here adds behaviour: the wrappers expose crate-private views that the scheduler itself
+//! uses (`ParallelState::split_for_parallel`) and forward commit events to the observer registry.
+#![allow(missing_docs, missing_debug_implementations)]
+
+use crate::{
+    ParallelState,
+    parallel_state::{ParallelStateCommit, ParallelStateView},
+};
+use revm::{DatabaseCommit, DatabaseRef};
+use revm_context::result::ExecutionResult;
+use revm_primitives::{Address, B256, U256};
+use revm_state::{Account, AccountInfo, Bytecode, EvmState};
+
+/// Payload of the `COMMIT_BEGIN` observation: what ordered commit is about to apply for `txid`.
+/// The pointers are valid for the duration of the observer callback only.
+pub struct CommitPayload {
+    pub result: *const ExecutionResult,
+    pub state: *const EvmState,
+    pub deferred_reward_folded: bool,
+}
+
+pub(crate) fn observe_commit(
+    txid: usize,
+    result: &ExecutionResult,
+    state: &EvmState,
+    deferred_reward_folded: bool,
+) {
+    let payload = CommitPayload { result, state, deferred_reward_folded };
+    grevm_verif_rt::observe(grevm_verif_rt::Event {
+        kind: grevm_verif_rt::obs::kind::COMMIT_BEGIN,
+        txid,
+        a: 0,
+        b: 0,
+        c: 0,
+        payload: Some(&payload),
+    });
+}
+
+/// The worker-side view produced by `ParallelState::split_for_parallel`.
+pub struct WorkerView<'a, DB>(ParallelStateView<'a, DB>);
+
+impl<DB> Clone for WorkerView<'_, DB> {
+    fn clone(&self) -> Self {
+        *self
+    }
+}
+impl<DB> Copy for WorkerView<'_, DB> {}
+
+impl<DB: DatabaseRef> DatabaseRef for WorkerView<'_, DB> {
+    type Error = DB::Error;
+    fn basic_ref(&self, address: Address) -> Result<Option<AccountInfo>, Self::Error> {
+        self.0.basic_ref(address)
+    }
+    fn code_by_hash_ref(&self, code_hash: B256) -> Result<Bytecode, Self::Error> {
+        self.0.code_by_hash_ref(code_hash)
+    }
+    fn storage_ref(&self, address: Address, index: U256) -> Result<U256, Self::Error> {
+        self.0.storage_ref(address, index)
+    }
+    fn block_hash_ref(&self, number: u64) -> Result<B256, Self::Error> {
+        self.0.block_hash_ref(number)
+    }
+}
+
+/// The commit-side handle produced by `ParallelState::split_for_parallel`.
+pub struct CommitHandle<'a, DB>(ParallelStateCommit<'a, DB>);
+
+impl<DB: DatabaseRef> CommitHandle<'_, DB> {
+    pub fn commit(&mut self, evm_state: revm_primitives::AddressMap<Account>) {
+        self.0.commit(evm_state)
+    }
+    pub fn basic_ref(&self, address: Address) -> Result<Option<AccountInfo>, DB::Error> {
+        self.0.basic_ref(address)
+    }
+}
+
+/// `ParallelState::split_for_parallel`, as used by `Scheduler::parallel_execute_inner`.
+pub fn split_for_parallel<DB: DatabaseRef>(
+    state: &mut ParallelState<DB>,
+) -> (WorkerView<'_, DB>, CommitHandle<'_, DB>) {
+    let (view, commit) = state.split_for_parallel();
+    (WorkerView(view), CommitHandle(commit))
+}
